@@ -184,6 +184,22 @@ def py_put(arg, rp, value):
         arg[p] = value
 
 
+def non_member(buf):
+    """an object of a struct class that is no member of the union under test, but IS a member of another union of this
+    process, through which one instance has already been stored (membership is per union)"""
+    import xobjects as xo
+
+    class NotAMember(xo.Struct):
+        q = xo.Int64
+
+    class ElsewhereU(xo.UnionRef):
+        _reftypes = (NotAMember,)
+
+    ElsewhereU(NotAMember(q=7))
+    ElsewhereU("NotAMember", {"q": 8})
+    return NotAMember(q=1, _buffer=buf)
+
+
 def misuse_menu(s, opts, d):
     if d < opts.get("prefix", 0):
         o = dict(opts)
@@ -259,7 +275,7 @@ def misuse_menu(s, opts, d):
                 for via in ("h", "v"):
                     evs.append(("x-str", via, path, extra))
         elif nt[0] == "U" and path:
-            for kind in ("foreign-object", "unknown-name", "plain-number"):
+            for kind in ("foreign-object", "one-tuple", "member-name-elsewhere", "unknown-name", "plain-number"):
                 evs.append(("x-union", "h", path, kind))
     return evs
 
@@ -364,15 +380,12 @@ def apply_misuse(s, ev):
     elif kind == "x-union-in":
         rp, form = ev[3], ev[4]
 
-        class NotAMember(xo.Struct):
-            q = xo.Int64
-
         if form == "foreign-object":
-            bad = NotAMember(q=1, _buffer=s.h._buffer)
+            bad = non_member(s.h._buffer)
         elif form == "unknown-name":
             bad = ("NoSuchType", {"q": 1})
         else:
-            bad = (NotAMember(q=1, _buffer=s.h._buffer),)
+            bad = (non_member(s.h._buffer),)
         arg = xt.to_py(nt, alt_everywhere(nt, nv))
         py_put(arg, rp, bad)
         if path:
@@ -381,10 +394,12 @@ def apply_misuse(s, ev):
             (rh.get() if rt[0] == "U" and hasattr(rh, "get") else rh)._update(arg)
     elif kind == "x-union":
         if ev[3] == "foreign-object":
-            class NotAMember(xo.Struct):
-                q = xo.Int64
-
-            arg = NotAMember(q=1, _buffer=s.h._buffer)
+            arg = non_member(s.h._buffer)
+        elif ev[3] == "one-tuple":
+            arg = (non_member(s.h._buffer),)
+        elif ev[3] == "member-name-elsewhere":
+            non_member(s.h._buffer)
+            arg = ("NotAMember", {"q": 1})
         elif ev[3] == "unknown-name":
             arg = ("NoSuchType", {"q": 1})
         else:
